@@ -220,6 +220,27 @@ async fn apply(w: &mut World, mgr: &Arc<Mgr>, ev: &Value) -> (bool, Option<Value
             }
             (true, None)
         }
+        "burst" => {
+            // the HTLCs are handled CONCURRENTLY while the table lock is contended: the harness holds the lock, queues one
+            // handle_htlc task per HTLC on it (tokio's mutex hands over in FIFO order), then releases it. Lifecycles that
+            // are woken by these HTLCs queue behind them, exactly as they can on the multi-threaded runtime.
+            let guard = crate::htlc_manager::probe_lock_table(&**mgr).await;
+            for it in ev["items"].as_array().unwrap() {
+                let rv = it["req"].clone();
+                let uid = it["uid"].as_u64().unwrap();
+                if let Ok(req) = serde_json::from_value::<HtlcAcceptedRequest>(rv) {
+                    let m = mgr.clone();
+                    let rs = w.responses.clone();
+                    tokio::spawn(async move {
+                        let r = m.handle_htlc(&req).await;
+                        rs.lock().unwrap().push((uid, serde_json::to_value(&r).unwrap()));
+                    });
+                    for _ in 0..5 { tokio::task::yield_now().await; }
+                }
+            }
+            drop(guard);
+            (true, None)
+        }
         "proc" => {
             let h = w.hashes[ev["h"].as_u64().unwrap() as usize].clone();
             let c = ev["c"].as_u64().unwrap() as usize;
@@ -634,6 +655,10 @@ pub fn run_case(case: &Value) -> Value {
                     } else {
                         si += 1;
                         if e["e"] == "htlc" { htlc_event(&mut w, &e) }
+                        else if e["e"] == "burst" {
+                            let items: Vec<Value> = e["items"].as_array().unwrap().iter().map(|it| htlc_event(&mut w, it)).collect();
+                            json!({"e": "burst", "items": items})
+                        }
                         else if e["e"] == "replay" {
                             let i = e["i"].as_u64().unwrap() as usize;
                             if i >= w.delivered.len() { continue; }
@@ -671,6 +696,7 @@ pub fn run_case(case: &Value) -> Value {
                     script = after_crash.clone(); si = 0; drain_budget = 0;
                     // an htlc that was about to be delivered never reached the plugin
                     if ev["e"] == "htlc" { w.delivered.pop(); }
+                    if ev["e"] == "burst" { for _ in 0..ev["items"].as_array().map(|a| a.len()).unwrap_or(0) { w.delivered.pop(); } }
                     ev = json!({"e": "crash"});
                 }
                 if ev["e"] == "proc" && !fault_at.is_empty() {
